@@ -48,7 +48,8 @@ pub fn files(tier: Tier, seed: u64) -> Vec<CutFile> {
     for (name, bytes) in crate::refmp4::kitchen::cut_layouts(tier) {
         raw.push((name, bytes, None));
     }
-    if tier == Tier::Thorough {
+    {
+        let _ = tier;
         raw.push(("canned:big_buck_bunny_metadata.m4v (metadata, moov first)".into(), canned("big_buck_bunny_metadata.m4v"), None));
     }
     raw.into_iter()
